@@ -22,6 +22,12 @@ CHECKS={
  "C08":dict(tech="runtime monitoring: reference-model oracle (extent of a provably dense independent sampling) over seeded paths, plus translation/reflection equivariance",
    text="Bounds and FastBounds of generated paths are compared with the extent of an independent dense sampling (containment, tightness on all four sides, FastBounds contains Bounds) and with their own images under an integer translation and both axis reflections.",
    note="trusted: harness/geom flattening with the chord bound h^2/8*max|P''| < 1e-7*scale; equivariance goes through Path.Transform (C07)", ref="DESIGN.md §5 C08"),
+ "C05":dict(tech="runtime monitoring: executable pattern model (cyclic, doubled, shifted dash intervals on independent arc-length tables) compared with the returned pieces; exact nearest-point test that pieces lie on the input",
+   text="Dash is run on generated paths x dash arrays x offsets; the returned pieces are matched in order against the on-intervals an independent model of the raw pattern prescribes on reference arc-length tables (start/end points, lengths, count, total, wrap-around join on closed sub-paths), and every piece is tested to lie on the input path.",
+   note="trusted: harness/geom arc-length tables and nearest-point search; curved paths are held to 1% of the sub-path length (library's approximate inversion, C09), polylines to 1e-9; a zone next to curved sub-path ends is pinned by witnesses instead of explored (F-C05-end-boundary)", ref="DESIGN.md §5 C05"),
+ "C09":dict(tech="runtime monitoring: reference-model oracle (independent arc length, exact-distance two-sided Hausdorff, parametric reversal identity, winding negation) over seeded curve classes x split positions",
+   text="Length is compared with an independent arc length (2%), SplitAt pieces with the input (nothing extra, nothing missing, lengths add up, piece count, cut positions), Reverse with the parametric reversal of every segment, preserved length/closedness/direction and negated winding numbers.",
+   note="trusted: harness/geom; 'about one percent' read as 2% for Length and 1% of the path length for cut positions; hairpin Béziers and eccentric arcs are pinned by witnesses (Length off by up to 13%)", ref="DESIGN.md §5 C09"),
 }
 NA_REASON="monitor not built yet (work in progress; see DESIGN.md §5)"
 m={"version":1,"setup_cmd":"./run.sh setup",
